@@ -67,6 +67,24 @@ def families(tier, seed):
         {"parameters": {"a": "%todo()% %b%", "b": "%a%"}},
         {"parameters": {"a": "%%a%%", "b": "%%%b%"}},
     ]
+    for slot in range(6):
+        calls_ = [["A", ["x0"]], ["B", ["x1", "x2"]], ["C", []], ["D", ["x3"]]]
+        fields_ = {"F": "x4", "G": "x5"}
+        ref_ = "@b" if slot % 2 == 0 else "!tagged tb"
+        if slot == 0:
+            calls_[0][1][0] = ref_
+        elif slot == 1:
+            calls_[1][1][0] = ref_
+        elif slot == 2:
+            calls_[1][1][1] = ref_
+        elif slot == 3:
+            calls_[3][1][0] = ref_
+        elif slot == 4:
+            fields_["F"] = ref_
+        else:
+            fields_["G"] = ref_
+        hand.append({"services": {"a": S(arguments=["lit"], calls=calls_, fields=fields_), "b": S(arguments=["@a"], tags=["tb"])}})
+        hand.append({"services": {"a": S(calls=calls_, fields=fields_), "b": S(tags=["tb"])}})      # the same shape without the cycle
     for n_ in (4, 5, 8, 12):
         ring = {"p%d" % i: "x%%p%d%%" % ((i + 1) % n_) for i in range(n_)}
         hand.append({"parameters": dict(ring)})
